@@ -73,8 +73,26 @@ def check_decisions(subj, events, cnt, viol, label):
     first_open_pick = True
     nondeg = 0
     nonuni = 0
+    elem = -1  # index of the element being generated (elements are entered left to right, once each)
+    tokwin = None
     for e in events:
         k = e["k"]
+        if k == "enter" and e["kind"] in ("stochastic", "token"):
+            elem += 1
+            tokwin = cm.elements[elem] if (e["kind"] == "token" and elem < len(cm.elements) and isinstance(cm.elements[elem], model.CTok)) else None
+        if k == "exit" and e["kind"] == "token":
+            tokwin = None
+        if k == "attach" and tokwin is not None and win is None:
+            # hand-over to a token: the token's descriptor that was bonded must be a lawful pick among its descriptors compatible with the incoming one
+            d1, d2 = tuple(e["d1"]), tuple(e["d2"])
+            at = e["a2"] - e["n_before"]
+            cands = [(d, d.weight) for d in tokwin.descs if compat(d1, d.triple)]
+            taken = [d for d, _ in cands if d.triple == d2 and d.atom == at]
+            if cands and taken:
+                pr = dict((id(d), p) for d, p in model.weighted(cands))
+                cnt["token_handover_picks_checked"] += 1
+                if not any(pr.get(id(d), 0.0) > 0 for d in taken):
+                    viol.append({"cls": "c08.insitu.handover-takes-zero-probability-descriptor", "msg": f"token {tokwin.text} was entered through its descriptor {d2} on atom {at}, which has probability 0 among {[(d.triple, d.atom, w) for d, w in cands]}", "text": subj.text, "label": label})
         if k == "enter" and e["kind"] == "stochastic":
             si += 1
             win = stoch[si] if si < len(stoch) else None
